@@ -27,9 +27,12 @@ def sel_bits(s):
 
 
 def gen(rng, k):
-    kind = ("lattice", "lattice_noise", "two", "random", "clean")[k % 5]
+    kind = ("lattice", "lattice_noise", "two", "random", "clean", "fine", "sparse")[k % 7]
     a = np.array([rng.uniform(15, 35), rng.uniform(-4, 4)])
     b = np.array([rng.uniform(-4, 4), rng.uniform(15, 35)])
+    if kind == "fine":   # fine-meshed: lattice vectors only a few tolerances long, re-matching may re-index the same peaks
+        a = np.array([rng.uniform(6, 10), rng.uniform(-2, 2)])
+        b = np.array([rng.uniform(-2, 2), rng.uniform(6, 10)])
     zero = rng.uniform(60, 80, 2)
     pts = [zero.copy()]
     if kind == "clean":
@@ -37,16 +40,24 @@ def gen(rng, k):
         oi, oj = int(rng.integers(0, ni)), int(rng.integers(0, nj))
         idx = [(i - oi, j - oj) for i in range(ni) for j in range(nj) if (i - oi, j - oj) != (0, 0)][:9]
         pts += [zero + i * a + j * b for i, j in idx]
-    elif kind in ("lattice", "lattice_noise", "two"):
+    elif kind in ("lattice", "lattice_noise", "two", "fine"):
         grid = [(i, j) for i in range(-2, 3) for j in range(-2, 3) if (i, j) != (0, 0)]
+        if kind == "fine":
+            grid = [(i, j) for i in range(-4, 5) for j in range(-4, 5) if (i, j) != (0, 0)]
         sel = rng.choice(len(grid), size=int(rng.integers(3, 14)), replace=False)
-        noise = 0.0 if kind == "lattice" else 0.3
+        noise = 0.0 if kind == "lattice" else (0.7 if kind == "fine" else 0.3)
         pts += [zero + grid[s][0] * a + grid[s][1] * b + rng.normal(0, noise, 2) for s in sel]
         if kind == "two":
             a2, b2 = np.array([rng.uniform(20, 30), rng.uniform(8, 14)]), np.array([rng.uniform(-14, -8), rng.uniform(20, 30)])
             sel = rng.choice(len(grid), size=int(rng.integers(3, 8)), replace=False)
             pts += [zero + grid[s][0] * a2 + grid[s][1] * b2 for s in sel]
         pts += [zero + rng.uniform(-60, 60, 2) for _ in range(int(rng.integers(0, 4)))]
+    elif kind == "sparse":
+        # few points far apart compared with the tolerance, on integer coordinates, default-like parameters: the best
+        # lattice explaining them is fine-meshed compared with the tolerance (high indices)
+        cloud = rng.integers(0, 65, (int(rng.integers(6, 9)), 2)).astype(float)
+        zero = cloud[0].copy()
+        pts = list(cloud)
     else:
         pts += [zero + rng.uniform(-60, 60, 2) for _ in range(int(rng.integers(2, 20)))]
     pts = np.array(pts)[:25]
@@ -60,6 +71,12 @@ def gen(rng, k):
          "min_angle": float(rng.uniform(0.1, 0.5)), "min_delta": float(rng.choice([0, 5, 10])),
          "max_delta": float(rng.choice([np.inf, 80, 50])), "min_points": int(rng.choice([3, 10, 100])),
          "cand": None}
+    if kind == "fine":
+        p.update({"tolerance": float(rng.uniform(2.0, 3.0)), "min_delta": 0.0, "max_delta": float("inf")})
+    if kind == "sparse":
+        p["elev"] = np.ones(len(pts))
+        p.update({"tolerance": 3.0, "min_match": 3, "min_angle": float(np.pi / 10), "min_delta": 0.0,
+                  "max_delta": float("inf"), "min_points": 10})
     if k % 3 == 0 and kind != "random":
         p["cand"] = [(a * rng.uniform(0.97, 1.03)).tolist(), (b * rng.uniform(0.97, 1.03)).tolist()]
     if kind == "clean":
@@ -177,3 +194,15 @@ def search(ctx, boost=1, focus=()):
         p = gen(rng, k)
         ctx.oracle_case("cloud", p, run_case("cloud", p), nontrivial=p["kind"] != "clean")
         ctx.count("oracle_" + p["kind"])
+    # sparse integer clouds (cheap): the re-matching rounds of the candidate search may re-index the same peaks
+    corpus = [[[19, 56], [62, 27], [63, 34], [18, 33], [21, 59], [6, 14]],
+              [[5, 41], [37, 18], [5, 6], [22, 23], [60, 50], [21, 29], [35, 8], [33, 4]],
+              [[46, 36], [12, 57], [23, 51], [52, 55], [36, 61], [44, 28], [45, 57], [64, 6]]]
+    for k in range((300 if ctx.tier == "thorough" else 60) * boost):
+        p = gen(rng, 6 + 7 * k)
+        if k < len(corpus):   # inputs kept from an earlier seeded change (re-indexing in the second matching round)
+            p["pts"] = np.array(corpus[k], dtype=float)
+            p["zero"] = p["pts"][0].copy()
+            p["elev"] = np.ones(len(p["pts"]))
+        ctx.oracle_case("cloud", p, run_case("cloud", p))
+        ctx.count("oracle_sparse")
